@@ -200,4 +200,48 @@ Definition offdot (A : list row) (n i : nat) (X : nat -> F) : F :=
 Definition rowdot (A : list row) (n i : nat) (X : nat -> F) : F :=
   sumF (map (fun j => coef A i j * X j) (seq 0 n)).
 
+
+(* domain of the property *)
+Definition wf_cols (A : list row) (n : nat) : Prop :=
+  forall i p, i < n -> In p (arow A i) -> fst p < n.
+(* every row stores exactly one entry in its diagonal column, and it is nonzero *)
+Definition diag_stored (A : list row) (n : nat) : Prop :=
+  forall i, i < n -> exists d, filter (fun p => fst p =? i) (arow A i) = [(i, d)] /\ d <> 0.
+(* ... and is not within the library's zero tolerance (what the Jacobi guard tests) *)
+Definition diag_not_tiny (A : list row) (n : nat) : Prop :=
+  forall i, i < n -> exists d, filter (fun p => fst p =? i) (arow A i) = [(i, d)] /\ d <> 0 /\ tiny d = false.
+(* the layout relax.cpp's sor/ssor rely on: that entry is stored first *)
+Definition diag_first (A : list row) (n : nat) : Prop :=
+  forall i, i < n -> exists d t, arow A i = (i, d) :: t /\ filter (fun p => fst p =? i) t = [] /\ d <> 0.
+
+(* A x = b *)
+Definition solves (A : list row) (n : nat) (x b : list F) : Prop :=
+  forall i, i < n -> rowdot A n i (xat x) = xat b i.
+
+(* the textbook sweeps, row by row; relax_val w xi bi s d = (1-w) xi + w (bi - s)/d.
+   x0 = values of the unknowns owned by other blocks (frozen at the start of the sweep),
+   y = vector the pass starts from, z = its result. *)
+Definition jac_spec (A : list row) (n : nat) (omega : F) (b x z : list F) : Prop :=
+  forall i, i < n ->
+    xat z i = relax_val omega (xat x i) (xat b i) (offdot A n i (xat x)) (coef A i i).
+Definition fwd_spec (A : list row) (parts : list nat) (n : nat) (omega : F) (b x0 y z : list F) : Prop :=
+  forall lo sz i, In (lo, sz) (blocks_from 0 parts) -> lo <= i < lo + sz ->
+    xat z i = relax_val omega (xat y i) (xat b i)
+      (offdot A n i (fun j => if in_blk lo sz j then (if j <? i then xat z j else xat y j) else xat x0 j))
+      (coef A i i).
+Definition bwd_spec (A : list row) (parts : list nat) (n : nat) (omega : F) (b x0 y z : list F) : Prop :=
+  forall lo sz i, In (lo, sz) (blocks_from 0 parts) -> lo <= i < lo + sz ->
+    xat z i = relax_val omega (xat y i) (xat b i)
+      (offdot A n i (fun j => if in_blk lo sz j then (if i <? j then xat z j else xat y j) else xat x0 j))
+      (coef A i i).
+(* sequential Gauss-Seidel/SOR: no frozen unknowns *)
+Definition seq_fwd_spec (A : list row) (n : nat) (omega : F) (b y z : list F) : Prop :=
+  forall i, i < n ->
+    xat z i = relax_val omega (xat y i) (xat b i)
+      (offdot A n i (fun j => if j <? i then xat z j else xat y j)) (coef A i i).
+Definition seq_bwd_spec (A : list row) (n : nat) (omega : F) (b y z : list F) : Prop :=
+  forall i, i < n ->
+    xat z i = relax_val omega (xat y i) (xat b i)
+      (offdot A n i (fun j => if i <? j then xat z j else xat y j)) (coef A i i).
+
 End Relax.
